@@ -12,7 +12,7 @@ use super::{SecondaryStorage, SecondaryTable, Snapshot};
 use crate::catalog::find_sort_key_id;
 use crate::storage::secondary::column::ColumnSeekPosition;
 use crate::storage::secondary::concat_iterator::ConcatIterator;
-use crate::storage::secondary::manifest::{AddRowSetEntry, DeleteRowsetEntry};
+use crate::storage::secondary::manifest::{AddRowSetEntry, DeleteDVEntry, DeleteRowsetEntry};
 use crate::storage::secondary::merge_iterator::MergeIterator;
 use crate::storage::secondary::rowset::{DiskRowset, RowsetBuilder, RowsetWriter};
 use crate::storage::secondary::statistics::create_statistics_global_aggregator;
@@ -175,14 +175,24 @@ impl Compactor {
             changes.push(add_rowset_op);
         }
 
-        // Remove old RowSets
-        // and TODO: remove old DVs
-        changes.extend(selected_rowsets.iter().map(|x| {
-            EpochOp::DeleteRowSet(DeleteRowsetEntry {
-                rowset_id: x.rowset_id(),
+        // Remove old RowSets and their DVs. The DVs have been applied while reading the old
+        // RowSets; if their entries stayed in the manifest, they would be applied again to a new
+        // RowSet that is later assigned the id of an old one.
+        for rowset in &selected_rowsets {
+            changes.push(EpochOp::DeleteRowSet(DeleteRowsetEntry {
+                rowset_id: rowset.rowset_id(),
                 table_id: table.table_ref_id,
-            })
-        }));
+            }));
+            if let Some(dvs) = snapshot.get_dvs_of(table.table_id(), rowset.rowset_id()) {
+                for dv_id in dvs {
+                    changes.push(EpochOp::DeleteDV(DeleteDVEntry {
+                        table_id: table.table_ref_id,
+                        dv_id: *dv_id,
+                        rowset_id: rowset.rowset_id(),
+                    }));
+                }
+            }
+        }
 
         self.storage.version.commit_changes(changes).await?;
 
